@@ -180,7 +180,8 @@ Qed.
 (* and the text's own clauses are there exactly once, however often it was loaded before *)
 Theorem own_clauses_exact : forall t s m k, In k (text_keys s) ->
   extensible (flags_or (flags_of_key (db_of m) k) (decl_flags k s)) = true ->
-  filter (mine t) (clauses_of_key (db_of (load t s m)) k) = tag t (clauses_for k s).
+  filter (mine t) (clauses_of_key (db_of (load t s m)) k)
+  = tag t (contribution (flags_or (flags_of_key (db_of m) k) (decl_flags k s)) k s).
 Proof.
   intros t s m k Hin Hext. rewrite db_of_load. unfold clauses_of_key. rewrite load_pred_spec.
   destruct (in_dec key_dec k (text_keys s)); [|contradiction].
